@@ -884,9 +884,12 @@ class C18(PropBase):
                 bad = ARMOR + stripped[:-1] + alphabet[v | (1 if len(pad) == 1 else rng.choice([1, 2, 4, 8]))] + pad
             elif r == "non-utf8":
                 raw = text.encode("utf-8")
-                j = raw.index(b'"', 1) + 1
                 junk = rng.choice([b"\xff", b"\xc0\xaf", b"\xed\xa0\x80", b"\xf4\x90\x80\x80", b"\xe0\x9f\xbf", b"\xf0\x8f\xbf\xbf", b"\x80", b"\xc3", b"\xe2\x82"])
-                bad = ARMOR + b64(raw[:j] + junk + raw[j:])
+                if b'"regex":"' in raw and rng.random() < 0.5:
+                    j = raw.index(b'"regex":"') + 9        # inside a pattern
+                    bad = ARMOR + b64(raw[:j] + junk + raw[j:])
+                else:                                       # inside the value of a field nobody reads
+                    bad = ARMOR + b64(b'{"note":"' + junk + b'",' + raw[1:])
             elif r == "double-armor":
                 bad = ARMOR + b64(ARMOR + e)
             elif r == "armor-of-garbage":
